@@ -22,6 +22,10 @@ def gen(rng, n):
             for fail, msg in (("fi", "s 9"), ("fs", "i 9")):
                 for pos in range(len(base) + 1):
                     hs.append(["N %s ignoreclose=%d" % (mode, ign)] + base[:pos] + [fail] + base[pos:] + [msg, "E"])
+    # the initiator goes away while the source stream is still being opened (monitor only: the model starts at "open")
+    for mode in ("default", "lcm"):
+        for end in ("ic",):
+            hs.append(["N %s ignoreclose=0 openblock=1" % mode, end, "E"])
     for _ in range(n):
         h = ["N %s ignoreclose=%d" % (rng.choice(["default", "lcm"]), rng.below(2))]
         k = 0
@@ -111,6 +115,11 @@ def monitor(h, lines):
             if ev in ENDINGS:
                 ended = True
         if l.startswith("= ") and ended:
+            if "openblock=1" in h[0]:
+                if "returned=true" not in l:
+                    bad.append("the initiator went away while the source stream was being opened, but the handler did not return: " + l)
+                    break
+                continue
             if "returned=true cancelled=true closesend=true" not in l:
                 bad.append("after %s the pair is not fully down: %s" % (ev, l))
                 break
@@ -140,7 +149,7 @@ def check(tier, seed):
     diffs, mon = [], []
     distinct = set()
     for i, h in enumerate(hs):
-        if project(impl[i]) != project(model[i]):
+        if "openblock=1" not in h[0] and project(impl[i]) != project(model[i]):
             diffs.append(i)
         b = monitor(h, impl[i])
         if b:
